@@ -103,11 +103,12 @@ pub fn squeeze(s: &str) -> String {
 pub fn subs(run: &Arc<Run>) -> Vec<Arc<dyn Sub>> {
     let thorough = run.tier().is_thorough();
     let seed = run.seed();
-    run.rule("base configuration (width 2, n=16, degree-2 rule, one single + one periodic assertion, 1 exemption, 3 queries, blowup 4, folding 2, remainder degree 3) per (field, hasher) pair; every configuration obtained by changing <= d of 14 dimensions (width {1,2,7,8,9,16,17,64,255}; rule {x^d+c for d=1,2,3,4,5,9; x*k+c with periodic cycle 2,4,n; rotation by a root of unity of order 2,4,n; constant; Fibonacci pair; all-constant}; n {8..256}; exemptions {1,2,3,n/2,n/2+1}; exempt-row fill {rule, 0, random}; 9 assertion sets (single at 0 / n-1 / both sides of the exemption boundary, periodic with first step 0 and non-zero and strides 2,n/2,n, sequences of n/2 and 2 values with zero and non-zero first step); aux {none, 1-2 running sums with 0-3 random elements, with Lagrange kernel column}; initial state {seeded,0,1,p-1}; queries {1,2,3,27,255}; blowup {2..128}; grinding {0,1,8}; extension {1,2,3}; folding {2,4,8,16}; remainder degree {0..255}) to any other value, d=1 quick / d=2 thorough, plus the full product of the shape-critical sub-space, plus the full product rule (19) x extension (3) x auxiliary kind (11, widths 1..12) x exemptions {1,3}, plus proofs with 255 queries over a 2^17-point LDE domain (n=1024, blowup 128) of which at least one must carry 255 distinct positions; points outside the admissible class (FRI schedule, queries >= LDE size, constructor refusals) are filtered and counted; a case is non-trivial when its proof was produced, verified, serialized, parsed and verified again; distinct by (pair, point)");
+    run.rule("base configuration (width 2, n=16, degree-2 rule, one single + one periodic assertion, 1 exemption, 3 queries, blowup 4, folding 2, remainder degree 3) per (field, hasher) pair; every configuration obtained by changing <= d of 14 dimensions (width {1,2,7,8,9,16,17,64,255}; rule {x^d+c for d=1,2,3,4,5,9; x*k+c with periodic cycle 2,4,n; rotation by a root of unity of order 2,4,n; constant; Fibonacci pair; all-constant}; n {8..256}; exemptions {1,2,3,n/2,n/2+1}; exempt-row fill {rule, 0, random}; 9 assertion sets (single at 0 / n-1 / both sides of the exemption boundary, periodic with first step 0 and non-zero and strides 2,n/2,n, sequences of n/2 and 2 values with zero and non-zero first step); aux {none, 1-2 running sums with 0-3 random elements, with Lagrange kernel column}; initial state {seeded,0,1,p-1}; queries {1,2,3,27,255}; blowup {2..128}; grinding {0,1,8}; extension {1,2,3}; folding {2,4,8,16}; remainder degree {0..255}) to any other value, d=1 quick / d=2 thorough, plus the full product of the shape-critical sub-space, plus the full product rule (19) x extension (3) x auxiliary kind (11, widths 1..12) x exemptions {1,3}, plus rules with repeating columns x every assertion set (11, incl. groups holding a periodic and a sequence assertion) x exemptions {1,2,3} x {no, quadratic} extension, plus proofs with 255 queries over a 2^17-point LDE domain (n=1024, blowup 128) of which at least one must carry 255 distinct positions; points outside the admissible class (FRI schedule, queries >= LDE size, constructor refusals) are filtered and counted; a case is non-trivial when its proof was produced, verified, serialized, parsed and verified again; distinct by (pair, point)");
     run.assume("traces are valid by construction and re-checked by the reference validity predicate; runs in which the coin exhausts its 1000 attempts are excluded as the property states");
     let mut points: Vec<Point> = family::within(if thorough { 2 } else { 1 });
     points.extend(family::shape_critical());
     points.extend(family::degree_extension_product());
+    points.extend(family::repeating_rule_assertion_product());
     let points = Arc::new(points);
     let pairs = crate::pairs(run);
     let np = points.len() as u64;
